@@ -285,7 +285,8 @@ pub fn seq_case_result_focus(case: &SeqCase, policy: &Policy, nt: NtRule, focus:
     let outcome = run_seq_case_focus(case, policy, focus);
     CaseResult {
         // a deferred failure of another property (noted at the end of the case) does not make the case trivial
-        nontrivial: nt(&outcome.stats) && outcome.failure.as_ref().map(|failure| !focus.is_empty() && !failure.concerns(focus)).unwrap_or(true),
+        // (a breach noted under `note_over_limit`, reported as the known finding F5 at the end of the case, does not make it trivial either)
+        nontrivial: nt(&outcome.stats) && outcome.failure.as_ref().map(|failure| (!focus.is_empty() && !failure.concerns(focus)) || (policy.note_over_limit && matches!(failure.tag.as_str(), "C01/quiescent/out-of-bounds" | "C01/release/out-of-bounds"))).unwrap_or(true),
         classes: classes_of(&outcome.stats),
         suppressed: outcome.stats.suppressed.clone(),
         failure: outcome.failure,
